@@ -32,6 +32,27 @@ Theorem C14_stage_monotone_from : forall s ts, Inv s ->
 Proof. exact stage_monotone_from. Qed.
 Print Assumptions C14_stage_monotone_from.
 
+(* terminal states are never left: a record in the finalized or the finalize-failed store is never changed again,
+   from any state and by any history (in particular it never moves back) *)
+Theorem C14_terminal_never_left : forall s ts id p, g_props s !! id = Some p ->
+  p_store p = SFinalized \/ p_store p = SFinFailed -> g_props (run s ts).1 !! id = Some p.
+Proof. exact terminal_never_left. Qed.
+Print Assumptions C14_terminal_never_left.
+
+(* ids are unique across all five stores (active, passed, failed, finalized, finalize-failed): along every history an
+   id that has ever been created is never accepted by PROPOSAL_CREATE again — any sender, any parameters, any later
+   state — and a successful create always concerns an id that no store holds *)
+Theorem C14_id_never_created_twice : forall ts1 ts2 id ty pr amt fdl vdl goal pass cv e payer fee,
+  (1 <= rank_of (run init ts1).1 id)%nat ->
+  let s := (run (run init ts1).1 ts2).1 in
+  step s (mkTx (OCreate id ty pr amt fdl vdl goal pass cv) e payer fee) = (s, false, []).
+Proof. exact id_never_created_twice. Qed.
+Print Assumptions C14_id_never_created_twice.
+
+Theorem C14_create_only_fresh : forall s e id ty pr amt fdl vdl goal pass cv s' ev,
+  h_create s e id ty pr amt fdl vdl goal pass cv = Some (s', ev) -> g_props s !! id = None.
+Proof. exact create_only_fresh. Qed.
+
 (* witness environment: one validator (account 10, power 100) *)
 Definition wopts : opts := mkOpts 1 10 5 51 (mkDist 180000 180000 100000 180000 180000) (mkDist 180000 180000 100000 180000 180000).
 Definition wenv : env := mkEnv wopts wopts wopts [(10%N, 100)] [10%N] 13%N 14%N [].
@@ -61,6 +82,23 @@ Example C14_life_nonvacuous :
   rank_of (run init (w_life [])).1 0%N = 4%nat /\
   (run init (w_life [])).2 = [EvContrib 0 1 5; EvContrib 0 2 5; EvConfig 0; EvDistrib 0 9 10] /\
   g_applied (run init (w_life [])).1 = [0%N] /\ g_anom (run init (w_life [])).1 = false.
+Proof. vm_compute. repeat split; reflexivity. Qed.
+
+(* non-vacuity for the finalize-failed outcome: the update function of a passed configuration proposal reports an
+   error at finalisation ([e_cfgfail]): the proposal ends in the finalize-failed store with its funds still recorded,
+   no configuration change is applied, and its id cannot be created again *)
+Example C14_finalize_failed_terminal :
+  let fenv := mkEnv wopts wopts wopts [(10%N, 100)] [10%N] 13%N 14%N [0%N] in
+  let ts := [wtx (OAdjust 1%N 100) []; wtx (OAdjust 2%N 100) [];
+             wtx (OBegin 1) []; wtx (OCreate 0%N TConfig 1%N 5 5 10 10 51 true) []; wtx (OFund 0%N 2%N 5) []; wtx OEnd [];
+             wtx (OBegin 2) []; wtx (OVote 0%N 10%N OpYes) []; wtx OEnd [];
+             wtx (OBegin 3) []; mkTx OEnd fenv 0%N 0; wtx (OBegin 4) []] in
+  let s := (run init ts).1 in
+  (fun p => (p_store p, p_total p)) <$> (g_props s !! 0%N) = Some (SFinFailed, 10) /\
+  (run init ts).2 = [EvContrib 0 1 5; EvContrib 0 2 5] /\ g_applied s = [] /\
+  (step s (wtx (OCreate 0%N TGeneral 2%N 5 9 14 10 51 true) [])).1.2 = false /\
+  (step s (wtx (OCreate 1%N TGeneral 2%N 5 9 14 10 51 true) [])).1.2 = true /\
+  (step s (wtx (OWithdraw 0%N 2%N 5 2%N) [])).1.2 = false.
 Proof. vm_compute. repeat split; reflexivity. Qed.
 
 (* ---- (2) voting starts only when the goal is met no later than the funding deadline ---- *)
